@@ -60,6 +60,34 @@ def shrink_case(stream, case, still_fails):
     return out
 
 
+def replay(prop, path):
+    """re-run the request lines of a replay file against the CURRENT /repo (real code) and the Lean model, side by side"""
+    import json
+    d = json.load(open(path))
+    ok, out, _ = vlib.cargo_build()
+    if not ok:
+        print(out[-2000:]); return 2
+    vlib.lake_build(["driver"])
+    lines = d.get("history_lines") or ([d["request_line"]] if d.get("request_line") else [])
+    if not lines and d.get("first_model_disagreement") and d["first_model_disagreement"].get("request_line"):
+        lines = [d["first_model_disagreement"]["request_line"]]
+    if not lines:
+        print("this replay names a theorem / build problem, not an input:", json.dumps(d.get("theorem_or_build_problem") or d.get("proof_problem") or d, indent=1)[:3000])
+        return 0
+    impl = vlib.run_impl(lines)
+    model = vlib.run_model(lines)
+    for l, i, m in zip(lines, impl, model):
+        print("request       :", [x[:200] for x in vlib.decode_line(l)])
+        print("implementation:", i[:1000])
+        if not m.startswith("UNKNOWN-OP"):
+            print("model         :", m[:1000])
+    if d.get("spec_line"):
+        print("spec          :", vlib.run_model([d["spec_line"]])[0][:1000])
+    if d.get("why"):
+        print("recorded why  :", d["why"])
+    return 0
+
+
 def main(argv):
     ap = argparse.ArgumentParser()
     ap.add_argument("prop")
@@ -68,6 +96,8 @@ def main(argv):
     ap.add_argument("--no-build", action="store_true")
     a = ap.parse_args(argv)
     prop, tier = a.prop, a.tier
+    if a.replay:
+        return replay(prop, a.replay)
     seed = int(os.environ.get("VERIF_SEED", "20260930"))
     t0 = time.time()
     mod = importlib.import_module(f"props.{prop}")
